@@ -3,7 +3,7 @@ Require Import Floats.SpecFloat.
 Require Import ZArith Reals Lia Lra Bool List.
 From Flocq Require Import Core BinarySingleNaN.
 From Dasp Require Import Base.Float Signal.OscNum Signal.Osc Signal.FloatFacts Signal.OscProofs
-  Signal.OscFloatProofs Signal.OscFloatRuns Signal.OscRun.
+  Signal.OscFloatProofs Signal.OscFloatRuns Signal.OscSimplexIEEE Signal.OscRun.
 Import ListNotations.
 
 Definition fz (z : Z) : f64 := F64.of_Z z.
@@ -77,6 +77,30 @@ Example ex_simplex :
   bits_of (fst (run F (simplex_next F) (phase_new F (const_hz F (fz 4) (fz 1))) 4))
   = [0; 4603574158878488658; 4601551687812781179; 4577233052468468777]%Z.
 Proof. vm_compute. reflexivity. Qed.
+
+(* hypotheses of simplex_ieee: the phase 65535.75 (last quarter before the wrap, corner indices 65535 and
+   65536 -> PERM[255], PERM[0]) and the negative argument -2.5 (floor -3, `as u8` wraps to 253) are finite
+   and in [-2^63, 2^63); their values are non-zero and inside (-1, 1) *)
+Definition ex_ph_hi : f64 := F64.of_bits 4679239978478206976.   (* 65535.75 *)
+Definition ex_ph_neg : f64 := F64.of_bits 13836183955189006336.   (* -2.5 *)
+Example ex_simplex_ieee_hyp :
+  fin ex_ph_hi /\ (- IZR two63 <= B2R ex_ph_hi < IZR two63)%R /\ fin ex_ph_neg /\ (- IZR two63 <= B2R ex_ph_neg < IZR two63)%R /\
+  bits_of [simplex_noise_1d F ex_ph_hi; simplex_noise_1d F ex_ph_neg] = [13826555156484430234; 13812538649770427679]%Z.
+Proof.
+  assert (V1 : B2R ex_ph_hi = 65535.75%R).
+  { rewrite <- SF2R_B2SF. replace (B2SF ex_ph_hi) with (S754_finite false 9007164895002624 (-37)) by (vm_compute; reflexivity).
+    unfold SF2R, F2R. simpl. lra. }
+  assert (V2 : B2R ex_ph_neg = (-2.5)%R).
+  { rewrite <- SF2R_B2SF. replace (B2SF ex_ph_neg) with (S754_finite true 5629499534213120 (-51)) by (vm_compute; reflexivity).
+    unfold SF2R, F2R. simpl. lra. }
+  split; [vm_compute; reflexivity|]. split; [rewrite V1; unfold two63; lra|].
+  split; [vm_compute; reflexivity|]. split; [rewrite V2; unfold two63; lra|]. vm_compute. reflexivity.
+Qed.
+
+(* the range hypothesis of simplex_ieee is needed for the FUNCTION (not for the signal, whose phase is
+   < 65536): at 1e300 the corner index saturates at i64::MAX, x0 ~ 1e300, x0*x0 overflows, the result is +inf *)
+Example ex_simplex_domain_needed : fin k1_hz /\ is_finite (simplex_noise_1d F k1_hz) = false.
+Proof. split; vm_compute; reflexivity. Qed.
 
 (* exact reals: rate 4, hz 1 -> frac (k / 4); frame 5 is 1/4 again *)
 Example ex_real_phase :
